@@ -123,6 +123,8 @@ def run_check(prop, tier, seed, jobs=None):
     if st:
         merged.inconclusive_because("reference self-test failed: " + st)
 
+    # witnesses of earlier runs of this property are stale once a new run starts
+    shutil.rmtree(os.path.join(VERIF, "replays", prop), ignore_errors=True)
     scratch = tempfile.mkdtemp(prefix="vf_%s_" % prop)
     try:
         specs = []
